@@ -141,6 +141,23 @@ def engine_check(ctx: Ctx, profile, n_quick, n_thorough, nontrivial, monitor=Non
     chunk = 100
     done = False
     pending = list(scns)
+    jobs = int(os.environ.get("VERIF_JOBS", "0") or 0) or (min(16, os.cpu_count() or 1) if ctx.tier == "thorough" else 1)
+    if ctx.tier == "thorough" and jobs > 1 and not ctx.replay:
+        # thorough tier: the index space is split over worker processes; failures come back as scenarios
+        # and are judged, shrunk and reported here (in the parent) exactly like in the sequential loop
+        target *= int(os.environ.get("VERIF_THOROUGH_FACTOR", "6"))
+        res = _parallel(ctx, profile, target, nontrivial, monitor, post, mutate, expand, tag, jobs,
+                        budget=max(30.0, ctx.left() * 0.45))
+        for k in stats:
+            stats[k] += res["stats"].get(k, 0)
+        nontriv |= res["nontriv"]
+        samples = res["samples"][:3]
+        for k, v in res["dist"].items():
+            dist[k] = dist.get(k, 0) + v
+        i = res["next_i"]
+        ctx.coverage["workers"] = jobs
+        pending = pending + [scn_from_json(js) for js in res["failures"][:6]]
+        target = 0           # the loop below only replays corpus + the failing scenarios
     while not done:
         if not pending:
             if stats["evaluations"] - n_corpus >= target or ctx.left() < 5:
@@ -207,6 +224,68 @@ def engine_check(ctx: Ctx, profile, n_quick, n_thorough, nontrivial, monitor=Non
         corpus=n_corpus, samples=samples, distribution=dist,
     )
     return stats
+
+
+_WORK = {}
+
+
+def _worker(k):
+    w = _WORK
+    ctx, profile, tag = w["ctx"], w["profile"], w["tag"]
+    monitor, post, mutate, expand, nontrivial = w["monitor"], w["post"], w["mutate"], w["expand"], w["nontrivial"]
+    jobs, share, deadline = w["jobs"], w["share"], w["deadline"]
+    stats = dict(evaluations=0, disagreements=0, monitor_failures=0, sends=0, ops=0)
+    nontriv, dist, samples, failures = set(), {}, [], []
+    i = k
+    done_here = 0
+    while done_here < share and time.time() < deadline and len(failures) < 3:
+        batch = []
+        for _ in range(40):
+            rng = random.Random(f"{ctx.seed}:{tag}:{i}")
+            s = gen.gen_scenario(rng, profile, f"{tag}-{ctx.seed}-{i}")
+            if mutate:
+                mutate(rng, s)
+            batch.extend(expand(rng, s) if expand else [s])
+            i += jobs
+        for (s, a, b, rt) in run_pair(batch):
+            stats["evaluations"] += 1
+            done_here += 1
+            stats["ops"] += len(s.ops)
+            if a and a[0].startswith("DEFERR"):
+                dist["deferr"] = dist.get("deferr", 0) + 1
+                continue
+            _distribution(dist, s, a)
+            if nontrivial(s, a, rt):
+                nontriv.add(scn_hash("\n".join(eng.model_lines(s)[1:])))
+                if len(samples) < 1:
+                    samples.append(dict(scenario=eng.model_lines(s)[:40], observation=a[:25]))
+            fails = [l for l in a if l.startswith("X ")]
+            if monitor:
+                fails += monitor(s, a, rt)
+            if post:
+                fails += post(s, a, rt)
+            if fails or first_diff(a, b):
+                failures.append(scn_to_json(s))
+    return dict(stats=stats, nontriv=nontriv, dist=dist, samples=samples, failures=failures, next_i=i)
+
+
+def _parallel(ctx, profile, target, nontrivial, monitor, post, mutate, expand, tag, jobs, budget):
+    import multiprocessing as mp
+    _WORK.update(ctx=ctx, profile=profile, tag=tag, monitor=monitor, post=post, mutate=mutate, expand=expand,
+                 nontrivial=nontrivial, jobs=jobs, share=(target + jobs - 1) // jobs, deadline=time.time() + budget)
+    with mp.get_context("fork").Pool(jobs) as pool:
+        parts = pool.map(_worker, range(jobs))
+    out = dict(stats={}, nontriv=set(), dist={}, samples=[], failures=[], next_i=0)
+    for p in parts:
+        for k, v in p["stats"].items():
+            out["stats"][k] = out["stats"].get(k, 0) + v
+        out["nontriv"] |= p["nontriv"]
+        for k, v in p["dist"].items():
+            out["dist"][k] = out["dist"].get(k, 0) + v
+        out["samples"] += p["samples"]
+        out["failures"] += p["failures"]
+        out["next_i"] = max(out["next_i"], p["next_i"])
+    return out
 
 
 def _distribution(dist, s, a):
